@@ -130,6 +130,11 @@ class BaseRollPass(DiskElementUnit, DeformationUnit, ABC):
 
     def init_solve(self, in_profile: BaseProfile):
         super().init_solve(in_profile)
+        # forget what was remembered during an earlier solve: gap, groove or roll may have been edited since then
+        self.__cache__.clear()
+        self.roll.__cache__.clear()
+        self._contour_lines = None
+        self.roll._contour_line = None
         self.out_profile.cross_section = self.usable_cross_section
 
     def reevaluate_cache(self):
